@@ -375,7 +375,139 @@ def ensemble_layer(ctx: fw.Ctx, header: str) -> None:
     ctx.differential('D_glob', header, cases_glob, shard=300)
 
 
+# ======================================================================================
+# whole operator: FakeAPI's connection table vs the served pairs
+# ======================================================================================
+
+SIM_NS_POOL = ['ns1', 'ns2', 'ns3', 'other']       # the operator serves the pattern 'ns*'
+
+
+def _sim_kinds() -> dict:
+    from kv import fakeapi
+    return {'k': fakeapi.KOPFEXAMPLE,
+            'ct': fakeapi.Kind('kopf.dev', 'v1', 'ClusterThing', 'clusterthings', namespaced=False),
+            'nk': fakeapi.Kind('c19.dev', 'v1', 'SpacedThing', 'spacedthings', namespaced=True)}
+
+
+def gen_sim(r: Any) -> dict:
+    clusterwide = r.random() < 0.3
+    steps = []
+    for _ in range(r.randrange(3, 9)):
+        x = r.random()
+        if x < 0.6:
+            steps.append([r.choice(['ns+', 'ns-']), r.choice(SIM_NS_POOL)])
+        else:
+            steps.append([r.choice(['kind+', 'kind-']), r.choice(['ct', 'nk'])])
+    return {'clusterwide': clusterwide, 'init_ns': r.sample(SIM_NS_POOL, r.randrange(0, 3)), 'init_kinds': r.sample(['ct', 'nk'], r.randrange(0, 3)),
+            'steps': steps}
+
+
+def run_sim(case: dict) -> list[dict]:
+    """One kopf.operator() incarnation (scanning enabled) under kv.sim; namespaces and CRDs come and go.
+    Returns, after every step, the open watch streams of the served kinds and the harness's reading of the served pairs."""
+    from kv import fakeapi, sim
+    kinds = _sim_kinds()
+    present = {'k'} | set(case['init_kinds'])
+    W = sim.World(kinds=[kinds[k] for k in sorted(present)])
+    api = W.api
+    out: list[dict] = []
+    try:
+        for ns in case['init_ns']:
+            api.create(fakeapi.NAMESPACE, None, ns)
+        for k in sorted(present):
+            api.create(fakeapi.CRD, None, f'{kinds[k].plural}.{kinds[k].group}', {'spec': {'group': kinds[k].group}})
+
+        def conf(s: Any) -> None:
+            s.scanning.disabled = False
+            s.watching.reconnect_backoff = 0.125
+        handlers = [{'id': 'ev_k', 'kind': 'event'}, {'id': 'ev_ct', 'kind': 'event', 'resource': kinds['ct']},
+                    {'id': 'ev_nk', 'kind': 'event', 'resource': kinds['nk']}]
+        inc = W.operator('op', handlers, namespaces=None if case['clusterwide'] else ['ns*'], configure=conf).start()
+        W.run_for(4)
+
+        def snap(step: Any) -> dict:
+            nss = sorted(k[2] for k in api.objects if k[0] == fakeapi.NAMESPACE.key)
+            table: dict[str, int] = {}
+            for st in api.streams:
+                if not st.closed and st.kind.plural in ('kopfexamples', 'clusterthings', 'spacedthings'):
+                    key = f'{st.kind.plural}|{st.namespace}'
+                    table[key] = table.get(key, 0) + 1
+            return {'step': step, 'namespaces': nss, 'kinds': sorted(present), 'table': dict(sorted(table.items())),
+                    'operator': inc.state, 'exception': repr(inc.exception) if inc.exception else None}
+        out.append(snap('start'))
+        for step in case['steps']:
+            a, x = step
+            if a == 'ns+' and api.get(fakeapi.NAMESPACE, None, x) is None:
+                api.create(fakeapi.NAMESPACE, None, x)
+            elif a == 'ns-':
+                api.delete(fakeapi.NAMESPACE, None, x)
+            elif a == 'kind+' and x not in present:
+                present.add(x)
+                api.kinds[kinds[x].key] = kinds[x]
+                api.create(fakeapi.CRD, None, f'{kinds[x].plural}.{kinds[x].group}', {'spec': {'group': kinds[x].group}})
+            elif a == 'kind-' and x in present:
+                present.discard(x)
+                del api.kinds[kinds[x].key]
+                api.delete(fakeapi.CRD, None, f'{kinds[x].plural}.{kinds[x].group}')
+            W.run_for(3)
+            out.append(snap(step))
+    finally:
+        W.close()
+    return out
+
+
+def monitor_sim(case: dict, snaps: list[dict]) -> tuple[list[dict], list[str]]:
+    kinds = _sim_kinds()
+    fails, corners = [], []
+    for s in snaps:
+        if s['operator'] != 'running':
+            fails.append({'sig': 'operator-exited', 'what': 'the operator exited during the scenario', 'observed': s})
+            break
+        served_ns: list = [None] if case['clusterwide'] else [n for n in s['namespaces'] if fnmatch.fnmatch(n, 'ns*')]
+        want: dict[str, int] = {}
+        undetermined = set()
+        for k in s['kinds']:
+            kd = kinds[k]
+            if kd.namespaced:
+                for ns in served_ns:
+                    want[f'{kd.plural}|{ns}'] = 1
+            elif served_ns:
+                want[f'{kd.plural}|None'] = 1
+            else:
+                undetermined.add(f'{kd.plural}|None')       # O2: cluster-scoped kind while no namespace is served
+        table = dict(s['table'])
+        for key in undetermined:
+            if table.pop(key, 0):
+                corners.append('O2 in the whole operator: cluster-scoped kind watched while no namespace is served')
+        if table != want:
+            fails.append({'sig': 'connection-table', 'what': 'open watch streams differ from the served (resource, namespace) pairs',
+                          'observed': {'step': s['step'], 'open': table, 'served': want, 'namespaces': s['namespaces'], 'kinds': s['kinds']}})
+    return fails, corners
+
+
+def sim_layer(ctx: fw.Ctx) -> None:
+    r = ctx.rng
+    for i in range(ctx.scale(60, 600)):
+        case = gen_sim(r)
+        snaps = run_sim(case)
+        fails, corners = monitor_sim(case, snaps)
+        ctx.count('sim', 'clusterwide' if case['clusterwide'] else 'namespaced')
+        for c in corners:
+            ctx.count('corner', c)
+        for f in fails:
+            ctx.fail(f['what'], {'layer': 'sim', **case}, observed=f['observed'], sig=f['sig'])
+        if len([s for s in case['steps'] if s[0] in ('ns-', 'kind-')]) >= 1 and len(case['steps']) >= 3:
+            ctx.nontriv(['sim', case])
+        if i == 0:
+            ctx.sample({'sim': case, 'tables': [s['table'] for s in snaps]})
+
+
 def replay(ctx: fw.Ctx, case: dict) -> bool:
+    if case.get('layer') == 'sim':
+        fails, _ = monitor_sim(case, run_sim(case))
+        for f in fails:
+            print('  ', f['sig'], f['what'], f['observed'])
+        return bool(fails)
     if case.get('layer') != 'ensemble':
         print('  (differential-only case: re-run the check)')
         return False
